@@ -6,6 +6,7 @@ import (
 	"fmt"
 	"io"
 	"os"
+	"strconv"
 	"strings"
 
 	"verif/harness/mc"
@@ -25,6 +26,10 @@ type c03AutoCase struct {
 	Auto   bool  `json:"auto_stream"`
 	Ls     []int `json:"lengths"` // one 2-row alignment per entry, of that many columns
 	Strict bool  `json:"strict,omitempty"`
+	// Raw: the input is this text as it is (blank inputs, truncated files); whatever is delivered must be an
+	// explicit error or well-formed alignments - never a nil or empty alignment presented as parsed
+	Raw  bool   `json:"raw,omitempty"`
+	Text string `json:"text,omitempty"` // Go-quoted
 }
 
 // c03FileLike: a reader that fails once closed, like *os.File.
@@ -104,8 +109,86 @@ func c03CheckAuto(c *mc.Ctx, cs c03AutoCase) {
 	c.Outcome("auto-stream:checked")
 }
 
+// c03CheckAutoRaw: the auto-detecting entry on an arbitrary small input.
+func c03CheckAutoRaw(c *mc.Ctx, cs c03AutoCase) {
+	text, err := strconv.Unquote(cs.Text)
+	if err != nil {
+		c.Fatal("bad quoted text %s", cs.Text)
+		return
+	}
+	body := func() any {
+		f := &c03FileLike{r: strings.NewReader(text)}
+		ch, _, err := utils.ParseMultiAlignmentsAuto(f, bufio.NewReader(io.Reader(f)), cs.Strict, align.BOTH)
+		if err != nil {
+			return "call-error"
+		}
+		if ch == nil || ch.Achan == nil {
+			return "BAD: no error and no channel"
+		}
+		var got []string
+		for vrt.BeforeRecv(ch.Achan) {
+			al, ok := <-ch.Achan
+			if !ok {
+				break
+			}
+			if al == nil {
+				got = append(got, "BAD: nil alignment delivered")
+				continue
+			}
+			rs := readRows(al)
+			d := fmt.Sprintf("%d rows", len(rs))
+			if len(rs) == 0 || len(rs[0].Seq) == 0 {
+				d = "BAD: empty alignment delivered"
+			}
+			for _, r := range rs {
+				if len(r.Seq) != len(rs[0].Seq) || al.Length() != len(r.Seq) {
+					d = "BAD: ragged alignment delivered"
+				}
+			}
+			got = append(got, d+":"+fmt.Sprint(rs))
+		}
+		e := "nil"
+		if ch.Err != nil {
+			e = "error"
+		}
+		return strings.Join(got, "|") + "|err=" + e
+	}
+	mc.SchedProbeExitOK(c, "C03/auto-detect-input", fmt.Sprintf("ParseMultiAlignmentsAuto on %s", cs.Text), 1, cs, body,
+		func(a, b any) bool { return a == b },
+		func(first any) string {
+			if strings.Contains(fmt.Sprint(first), "BAD:") {
+				return fmt.Sprint(first)
+			}
+			return ""
+		})
+	c.Eval()
+	c.Nontrivial(jsonStr(cs))
+	c.Outcome("auto-input:checked")
+}
+
 func c03AutoTasks() []mc.Task {
 	var ts []mc.Task
+	// small inputs through the auto-detecting entry: every string of <= 3 bytes over blanks, line ends, a digit, a
+	// letter and the first bytes of the other formats; every truncation of one file per format
+	ts = append(ts, mc.Task{Name: "autoinput#small", Run: func(c *mc.Ctx) {
+		forEachString(" \n\r\t2a>#C", 0, 3, func(b []byte) bool {
+			for _, strict := range []bool{false, true} {
+				c03CheckAutoRaw(c, c03AutoCase{Auto: true, Raw: true, Strict: strict, Text: strconv.Quote(string(b))})
+			}
+			return !c.Expired()
+		})
+		for _, file := range []string{" 2 4\na ACGT\nb AC-T\n 1 2\nc GT\n", "   2   4\na         ACGT\nb         AC-T\n", ">a\nAC\n>b\nGT\n",
+			"#NEXUS\nBEGIN DATA;\nDIMENSIONS NTAX=2 NCHAR=2;\nFORMAT DATATYPE=DNA;\nMATRIX\na AC\nb GT\n;\nEND;\n", "CLUSTAL W\n\na AC\nb GT\n  **\n"} {
+			for i := 0; i <= len(file); i++ {
+				for _, strict := range []bool{false, true} {
+					c03CheckAutoRaw(c, c03AutoCase{Auto: true, Raw: true, Strict: strict, Text: strconv.Quote(file[:i])})
+				}
+			}
+			if c.Expired() {
+				return
+			}
+		}
+	}})
 	// the first alignment grows column by column so that its end (and the header of the second) falls on every
 	// offset around the 4096-byte read buffer; then streams of three, and small ones
 	for sh := 0; sh < 8; sh++ {
@@ -129,6 +212,10 @@ func c03AutoReplay(c *mc.Ctx, payload []byte) bool {
 	var cs c03AutoCase
 	if err := json.Unmarshal(payload, &cs); err != nil || !cs.Auto {
 		return false
+	}
+	if cs.Raw {
+		c03CheckAutoRaw(c, cs)
+		return true
 	}
 	c03CheckAuto(c, cs)
 	return true
